@@ -293,88 +293,12 @@ def _main_sizes():
 CP_SIMP = ("CP.ext_iff', CP.zero_re, CP.zero_im, CP.ofK_re, CP.ofK_im, CP.add_re, CP.add_im, CP.sub_re, CP.sub_im, CP.neg_re, "
            "CP.neg_im, CP.mul_re, CP.mul_im, CP.div_re, CP.div_im, CP.divK_re, CP.divK_im, CP.ik_re, CP.ik_im, CP.sum3, CP.sum2")
 NAT_SIMP = "Nat.reduceAdd, Nat.reduceMul, ↓reduceIte, Nat.reduceEqDiff"
-DEF_SIMP = ("efieldLocal, gradFac, efieldPotTerm, mfieldPotTerm, efieldFarTerm, mfieldFarTerm, rwgVtx, rwgVal, rwgDiv, rwgDivIe, piola, rwgRef, edgeLen, elems, elemsT, elemsS, vtxU, vtxV, "
-            "pt, dot3, cross, triple")
-MX_DEFS = r"""
-/-- reference edge function i, component a, at (u, v): the rows of `vals` in `get_piola_transform` -/
-def rwgRef {K : Type} [Field K] (i a : Nat) (u v : K) : K :=
-  match i, a with
-  | 0, 0 => u
-  | 0, _ => v - 1
-  | 1, 0 => u - 1
-  | 1, _ => v
-  | _, 0 => u
-  | _, _ => v
-/-- Piola-mapped reference function, component c: `(J_e φ̂_i(u,v))_c / ie_e` -/
-def piola {K : Type} [Field K] (J : Nat → Nat → Nat → K) (ie : Nat → K) (e i c : Nat) (u v : K) : K :=
-  (J e c 0 * rwgRef i 0 u v + J e c 1 * rwgRef i 1 u v) / ie e
-/-- the edge length that scales local function i of element e: `el a b` stands for |V_a − V_b| (the tracer names the
-norm by the ordered vertex pair that the source subtracts); local edges are (v0,v1), (v2,v0), (v1,v2) -/
-def edgeLen {K : Type} [Field K] (elems : Nat → Nat → Nat) (el : Nat → Nat → K) (e i : Nat) : K :=
-  match i with
-  | 0 => el (elems e 0) (elems e 1)
-  | 1 => el (elems e 2) (elems e 0)
-  | _ => el (elems e 1) (elems e 2)
-/-- the basis function as the assemblers use it: local multiplier × edge length × Piola-mapped reference function -/
-def rwgVal {K : Type} [Field K] (m : Nat → Nat → K) (elems : Nat → Nat → Nat) (el : Nat → Nat → K) (J : Nat → Nat → Nat → K)
-    (ie : Nat → K) (e i c : Nat) (u v : K) : K :=
-  m e i * edgeLen elems el e i * piola J ie e i c u v
-def vtxU {K : Type} [Field K] (n : Nat) : K := match n with | 1 => 1 | _ => 0
-def vtxV {K : Type} [Field K] (n : Nat) : K := match n with | 2 => 1 | _ => 0
-/-- value of the basis function at local vertex n (its coefficient in the element-wise linear space: components are affine) -/
-def rwgVtx {K : Type} [Field K] (m : Nat → Nat → K) (elems : Nat → Nat → Nat) (el : Nat → Nat → K) (J : Nat → Nat → Nat → K)
-    (ie : Nat → K) (e i c n : Nat) : K :=
-  rwgVal m elems el J ie e i c (vtxU n) (vtxV n)
-/-- its (constant) surface divergence: reference divergence 2, divided by the integration element -/
-def rwgDiv {K : Type} [Field K] (m : Nat → Nat → K) (elems : Nat → Nat → Nat) (el : Nat → Nat → K) (ie : Nat → K) (e i : Nat) : K :=
-  m e i * edgeLen elems el e i * (2 / ie e)
-/-- integration element × divergence (`= 2 · multiplier · edge length`; equals `ie e * rwgDiv …` when `ie e ≠ 0`) -/
-def rwgDivIe {K : Type} [Field K] (m : Nat → Nat → K) (elems : Nat → Nat → Nat) (el : Nat → Nat → K) (e i : Nat) : K :=
-  m e i * edgeLen elems el e i * 2
-/-- `local2global`: component c of the point with local coordinates (u, v) on element e -/
-def pt {K : Type} [Field K] (V : Nat → Nat → K) (J : Nat → Nat → Nat → K) (elems : Nat → Nat → Nat) (e c : Nat) (u v : K) : K :=
-  V (elems e 0) c + (J e c 0 * u + J e c 1 * v)
-def dot3 {K : Type} [Field K] (a b : Nat → K) : K := a 0 * b 0 + a 1 * b 1 + a 2 * b 2
-/-- `a · (b × c)` -/
-def triple {K : Type} [Field K] (a b c : Nat → K) : K := a 0 * cross b c 0 + a 1 * cross b c 1 + a 2 * cross b c 2
-/-- **electric-field decomposition of one local block**: `−ik Σ_c Σ_m Σ_n R_c[i,m] V1[m,n] R_c[j,n] − (1/(ik)) D_i V0 D_j`
-(`Rt c m`, `Rs c n`: vertex values of the test / trial basis function, `Dt`, `Ds` their divergences, `V1`, `V0` the
-single-layer local integrals on the element-wise linear / constant spaces) -/
-def efieldLocal {K : Type} [Field K] (kr ki : K) (Rt Rs : Nat → Nat → K) (Dt Ds : K) (V1 : Nat → Nat → CP K) (V0 : CP K) : CP K :=
-  -(CP.ik kr ki * CP.sum3 fun c => CP.sum3 fun m => CP.sum3 fun n => CP.ofK (Rt c m) * V1 m n * CP.ofK (Rs c n))
-    - (CP.ofK Dt * V0 * CP.ofK Ds) / CP.ik kr ki
-/-- the factor the Maxwell kernels put in front of `x − y` to get the gradient of the Helmholtz kernel:
-`G · (ik d − 1) / d²` (`∇ₓ G(x,y) = gradFac · (x − y)` for `G = e^{ikd}/(4πd)`) -/
-def gradFac {K : Type} [Field K] (kr ki : K) (G : CP K) (d : K) : CP K :=
-  CP.divK (G * (CP.ik kr ki * CP.ofK d - CP.ofK 1)) (d * d)
-/-- one quadrature term of the magnetic-field double integral: `W · (x − y)·(ψt × ψs) · G (ik d − 1)/d²`
-`= W · ∇ₓG(x,y) · (ψt × ψs)` -/
-def mfieldTerm {K : Type} [Field K] (kr ki W : K) (x y ψt ψs : Nat → K) (G : CP K) (d : K) : CP K :=
-  CP.ofK (W * triple (fun c => x c - y c) ψt ψs) * gradFac kr ki G d
-/-- component c of one quadrature term of the electric-field potential:
-`G · (ik F_c − (x − y)_c (ik d − 1) Dv / (ik d²))`, with `F = w·ie·f(y)` and `Dv = w·ie·div f(y)`; this is
-`w·ie·[ik G f − (1/(ik)) ∇ₓG div f]_c` -/
-def efieldPotTerm {K : Type} [Field K] (kr ki : K) (G : CP K) (d : K) (x y F : Nat → K) (Dv : K) (c : Nat) : CP K :=
-  G * (CP.ik kr ki * CP.ofK (F c)
-       - CP.ofK (x c - y c) * (CP.ik kr ki * CP.ofK d - CP.ofK 1) * CP.ofK Dv / (CP.ik kr ki * CP.ofK d * CP.ofK d))
-/-- component c of one quadrature term of the magnetic-field potential: `(∇ₓG × F)_c`, `∇ₓG = gradFac · (x − y)` -/
-def mfieldPotTerm {K : Type} [Field K] (kr ki : K) (G : CP K) (d : K) (x y F : Nat → K) (c : Nat) : CP K :=
-  gradFac kr ki G d * CP.ofK (cross (fun a => x a - y a) F c)
-/-- electric far field term: `G · (ik F_c − x_c Dv)` (G: far-field kernel value, x: direction) -/
-def efieldFarTerm {K : Type} [Field K] (kr ki : K) (G : CP K) (x F : Nat → K) (Dv : K) (c : Nat) : CP K :=
-  G * (CP.ik kr ki * CP.ofK (F c) - CP.ofK (x c * Dv))
-/-- magnetic far field term: `ik G (x × F)_c` -/
-def mfieldFarTerm {K : Type} [Field K] (kr ki : K) (G : CP K) (x F : Nat → K) (c : Nat) : CP K :=
-  G * CP.ik kr ki * CP.ofK (cross x F c)
-/-- what separates the electric-field boundary integrand from minus the tested potential at one pair of quadrature
-points: `G · ( wt·(wq ieS)·div ψt·div ψs / (ik) + wt (ψt·(x − y)) (ik d − 1) (wq·DvS) / (ik d²) )`, which is
-`(1/(ik)) · wt · wq ieS · divₓ(ψt(x) G(x,y)) · div ψs(y)` when `DvS = ieS · div ψs` (`wt = w_p ie_τ`); its sum over
-the test points is the quadrature of a surface divergence (exact integral: the boundary flux of ψt G) -/
-def efieldRemainder {K : Type} [Field K] (kr ki : K) (G : CP K) (d wt wq ieS : K) (x y ψt : Nat → K) (divT divS DvS : K) : CP K :=
-  G * (CP.ofK (wt * (wq * ieS) * (divT * divS)) / CP.ik kr ki
-       + CP.ofK (wt * dot3 ψt (fun c => x c - y c)) * (CP.ik kr ki * CP.ofK d - CP.ofK 1) * CP.ofK (wq * DvS)
-         / (CP.ik kr ki * CP.ofK d * CP.ofK d))
-"""
+# specification-level definitions (Lemmas/Maxwell.lean) that the proofs unfold; `piola` and `pt` are NOT unfolded: the
+# traces are folded back to them (fold lemmas `pio*_eq`, `pt*_eq`, proved by rfl) and `ring` treats them as atoms
+DEF_SIMP = ("efieldLocal, quadForm, tab9, efieldClosed, efieldClosedSing, regV1, regV0, singV1, singV0, gradFac, mfieldTerm, "
+            "efieldPotTerm, mfieldPotTerm, efieldFarTerm, mfieldFarTerm, efieldRemainder, rwgVtx, rwgVal, rwgDiv, rwgDivIe, edgeLen, "
+            "elems, elemsT, elemsS, vtxU, vtxV, dot3, cross3, triple, lam")
+RING = "generalize_atoms [piola, pt]\n    ring"
 
 
 class Pool:
@@ -387,6 +311,7 @@ class Pool:
         self.key2id, self.nodes, self.size, self.uses = {}, [], [], []
         self._memo = {}
         self.entries = {}
+        self.forced = {}
 
     def intern(self, t):
         m = self._memo.get(id(t))
@@ -424,10 +349,21 @@ class Pool:
         self.uses[n] += 1
         self.entries[name] = n
 
+    def force(self, t, name, rhs):
+        """Give the subterm `t` (if it occurs) the definition name `name`; `rhs` is the specification-level Lean term it
+        is (definitionally) equal to: a fold lemma `name args = rhs` is emitted and used instead of unfolding."""
+        before = len(self.nodes)
+        n = self.intern(st.Sym.lift(t).t)
+        if n >= before or self.uses[n] == 0 or not self.nodes[n][1]:
+            return          # does not occur in this pool (nodes created by this call are never referenced)
+        self.forced[n] = (name, rhs)
+
     def finish(self):
         self.named = {}
         for n, (key, kids) in enumerate(self.nodes):
-            if kids and self.uses[n] >= 2 and self.size[n] >= self.min_size:
+            if n in self.forced:
+                self.named[n] = self.forced[n][0]
+            elif kids and self.uses[n] >= 2 and self.size[n] >= self.min_size:
                 self.named[n] = f"{self.prefix}{len(self.named)}"
         self.fv, self.deps = {}, {}
         for n, (key, kids) in enumerate(self.nodes):      # children have smaller ids
@@ -471,23 +407,40 @@ class Pool:
         for n in sorted(self.named):
             b = " ".join(f"({a} : {' → '.join(['Nat'] * ar[a] + ['K'])})" for a in sorted(self.fv[n]))
             L.append(f"def {self.named[n]} {{K : Type}} [Field K] {b} : K :=\n  {self.body(n)}")
+            if n in self.forced:
+                name, rhs = self.forced[n]
+                L.append(f"theorem {name}_eq {{K : Type}} [Field K] {b} :\n    {name} {' '.join(sorted(self.fv[n]))} = {rhs} := rfl")
         return L
 
     def unfold_names(self, entry):
+        """simp set that rewrites the entry into atoms and specification-level terms: definitions of the entry and of
+        the common subterms it uses; for the forced (folded) subterms their fold lemma and nothing below them"""
         n = self.entries[entry]
-        d = set(self.deps[n]) | ({n} if n in self.named else set())
-        return [self.named[c] for c in sorted(d)]
+        out, seen, todo = [], set(), [n]
+        while todo:
+            c = todo.pop()
+            if c in seen:
+                continue
+            seen.add(c)
+            if c in self.forced:
+                out.append(self.named[c] + "_eq")
+                continue
+            if c in self.named:
+                out.append(self.named[c])
+            todo.extend(self.nodes[c][1])
+        return sorted(out)
 
 
 POOLS = {"Reg": ("mxe", "mxeloc", "gv0", "gv1"), "MReg": ("mxmloc",), "Sing": ("mxes", "mxms", "gv0s", "gv1s"),
-         "Two": ("mxedis", "mxmdis", "mxepot", "mxmpot", "mxefar", "mxmfar")}
+         "TwoE": ("mxedis",), "TwoM": ("mxmdis",), "Pot": ("mxepot", "mxmpot", "mxefar", "mxmfar")}
 
 
 class Emitter:
-    def __init__(self, entries):
+    def __init__(self, entries, forced):
         self.entries = entries
         self.ar = ag.atom_arities(entries.values())
         self.B = ag.binders(self.ar)
+        self.atoms_of_section = sorted(self.ar)
         self.groups = {}
         self.thms = []
         self.pool_of = {}
@@ -498,6 +451,8 @@ class Emitter:
                 if fam[:-2] in fams:
                     P.add_entry(f"{fam}_{r}_{c}", t)
                     self.pool_of[f"{fam}_{r}_{c}"] = P
+            for t, name, rhs in forced.get(pname, ()):
+                P.force(t, name, rhs)
             P.finish()
             self.pools[pname] = P
 
@@ -530,8 +485,12 @@ class Emitter:
         for pname, P in self.pools.items():
             L = ["-- GENERATED by props/asm_gen_mx.py by tracing the Maxwell assembly functions of bempp_cl/core/numba_kernels.py -- do not edit",
                  "-- `cs*` definitions are common subterms of the traced terms (presentation only).",
-                 "import Mathlib.Algebra.Field.Defs",
+                 "-- `pio*` / `pt*` definitions are the traced values of `get_piola_transform` / `local2global`; the `*_eq` lemmas",
+                 "-- (rfl) identify them with the specification-level `piola` / `pt` of Lemmas/Maxwell.lean.",
+                 "import BemppVerif.Lemmas.Maxwell",
+                 "import BemppVerif.Gen.AsmMatchDefs",
                  "namespace BemppVerif.Gen.AsmTracesMx",
+                 "open BemppVerif.Mx BemppVerif.AsmMatch",
                  "set_option linter.unusedVariables false",
                  ""]
             L += P.lean_defs(self.ar)
@@ -546,24 +505,36 @@ class Emitter:
 
 
 UNIT = dict(mt="(fun _ _ => 1)", ms="(fun _ _ => 1)")
+ONE = "(fun _ _ => 1)"
 
 
-def _matrix_fun(em, name, fam, keys, doc):
-    """CP-valued function of the (r, c) index built from the traced entries with unit multipliers (zero elsewhere);
-    returns (Lean text, application text)."""
-    fv = set()
-    for (r, c) in keys:
-        for p_ in ("re", "im"):
-            P = em.pool_of[f"{fam}{p_}_{r}_{c}"]
-            fv |= set(P.fv[P.entries[f"{fam}{p_}_{r}_{c}"]])
-    fv -= {"mt", "ms"}
-    b = " ".join(f"({a} : {' → '.join(['Nat'] * em.ar[a] + ['K'])})" for a in sorted(fv))
-    L = [f"/-- {doc} -/", f"def {name} {{K : Type}} [Field K] {b} : Nat → Nat → CP K := fun a b =>\n  match a, b with"]
-    for (r, c) in keys:
-        if not em.is_zero(fam, r, c):
-            L.append(f"  | {r}, {c} => ⟨{em.app(fam + 're', r, c, **UNIT)}, {em.app(fam + 'im', r, c, **UNIT)}⟩")
-    L.append("  | _, _ => 0")
-    return "\n".join(L), "(" + " ".join([name] + sorted(fv)) + ")"
+def _forced_terms(env):
+    """(term, definition name, specification-level Lean term) for the values of `local2global` and
+    `get_piola_transform` (real functions, run symbolically) that occur in the traces of each pool."""
+    nk = env.nk
+    out = {k: [] for k in POOLS}
+
+    def grid_terms(pool, tag, grid, nelem, pts, uname, vname, cols, label):
+        V, J, ie, el = "V" + tag, "J" + tag, "ie" + tag, "elems" + tag.upper()
+        for e in range(nelem):
+            gp = grid.data.local2global(e, pts)
+            with tracing(env):
+                pio = _py(nk.get_piola_transform)(grid.data, [e], pts)[0]
+            for q in cols:
+                for c in range(3):
+                    out[pool].append((gp[c, q], f"pt{pool}{label}_{e}_{c}_{q}", f"pt {V} {J} {el} {e} {c} ({uname} {q}) ({vname} {q})"))
+                    for i in range(3):
+                        out[pool].append((pio[i, c, q], f"pio{pool}{label}_{e}_{i}_{c}_{q}",
+                                          f"piola {J} {ie} {e} {i} {c} ({uname} {q}) ({vname} {q})"))
+
+    for pool in ("Reg", "MReg"):
+        grid_terms(pool, "", env.g, NE, env.qp, "qu", "qv", range(NQ), "")
+    grid_terms("Sing", "", env.g, NE, env.stp, "stu", "stv", range(8), "t")
+    grid_terms("Sing", "", env.g, NE, env.ssp, "ssu", "ssv", range(8), "s")
+    for pool in ("TwoE", "TwoM", "Pot"):
+        grid_terms(pool, "t", env.gt, 2, env.qp, "qu", "qv", range(NQ), "t")
+        grid_terms(pool, "s", env.gs, 2, env.qp, "qu", "qv", range(NQ), "s")
+    return out
 
 
 def _denominators(t, acc):
@@ -579,7 +550,7 @@ def _denominators(t, acc):
 
 def _complex_den_facts(terms, nz):
     """`have` lines proving that the |ik·P|² denominators (P a product of atoms) occurring in the terms are non-zero.
-    `nz(atom_term)` gives the name of the hypothesis that the atom is non-zero."""
+    `nz(atom_term)` gives the proof that the atom is non-zero."""
     seen, out = set(), []
     for t in terms:
         for d in _denominators(t, []):
@@ -610,6 +581,7 @@ def generate(env=None):
     try:
         env = env or ag.Env()
         tr, sp = trace_all(env)
+        forced = _forced_terms(env)
     except (st.TraceError, AssertionError, AttributeError, TypeError, IndexError, ValueError, KeyError) as e:
         raise GenError(f"Maxwell assembler tracing failed: {type(e).__name__}: {e}")
     entries = {}
@@ -622,69 +594,95 @@ def generate(env=None):
     for t in entries.values():
         if any(v.startswith("@") for v in st.free_vars(t)):
             raise GenError("a Maxwell trace contains an uninterpreted function application (norm / sqrt pattern not recognised)")
-    em = Emitter(entries)
+    em = Emitter(entries, forced)
     for name, n in (("coef", 1), ("kp", 1), ("mt", 2), ("ms", 2), ("Gcre", 2), ("Gcim", 2), ("dst", 2)):
         if em.ar.get(name) != n:
             raise GenError(f"atom {name} missing from the Maxwell traces or used with arity {em.ar.get(name)}")
     changed = []
     trace_mods = em.write_traces(changed)
 
-    D = ["-- GENERATED by props/asm_gen_mx.py -- do not edit.",
-         "-- Definitions used by the statements of the generated Maxwell theorems (Gen/AsmMatchMaxwell*.lean)."]
-    D += [f"import BemppVerif.Gen.{m}" for m in trace_mods]
-    D += ["import BemppVerif.Gen.AsmMatchDefs",
-          "import BemppVerif.Lemmas.CPair",
-          "import Mathlib.Tactic.Ring",
-          "import Mathlib.Tactic.FieldSimp",
-          "namespace BemppVerif.AsmMatch",
-          "open BemppVerif BemppVerif.Gen.AsmTracesMx",
-          "set_option linter.unusedVariables false",
-          MX_DEFS]
-    txt, GV0 = _matrix_fun(em, "gv0M", "gv0", [(t_, s_) for t_ in range(NE) for s_ in range(NE)],
-                           "trace of `default_scalar_regular_kernel` on the element-wise constant space (unit multipliers), Maxwell kernel stub")
-    D.append(txt)
-    txt, GV1 = _matrix_fun(em, "gv1M", "gv1", [(a, b) for a in range(3 * NE) for b in range(3 * NE)],
-                           "trace of `default_scalar_regular_kernel` on the element-wise linear space (unit multipliers), Maxwell kernel stub")
-    D.append(txt)
-    txt, GV0S = _matrix_fun(em, "gv0sM", "gv0s", [(k, 0) for k in range(len(ag.SING_PAIRS))],
-                            "trace of `default_scalar_singular_kernel`, element-wise constant space (slot = pair index)")
-    D.append(txt)
-    txt, GV1S = _matrix_fun(em, "gv1sM", "gv1s", [(k, 0) for k in range(9 * len(ag.SING_PAIRS))],
-                            "trace of `default_scalar_singular_kernel`, element-wise linear space (slot = 9·pair + 3·m + n)")
-    D.append(txt)
-    D += ["end BemppVerif.AsmMatch", ""]
-    changed.append(T.write_if_changed(os.path.join(LEAN, "BemppVerif/Gen/AsmMatchMaxwellDefs.lean"), "\n".join(D)))
-
-    def simp_ring(defs, pre="", field=False):
-        tac = "field_simp\n  ring" if field else "ring"
-        if field:
-            return (f"{pre}  simp only [{CP_SIMP}, {NAT_SIMP}, {DEF_SIMP}, {', '.join(defs)}]\n"
-                    f"  constructor\n  · field_simp\n    ring\n  · field_simp\n    ring")
-        return f"{pre}  simp only [{CP_SIMP}, {NAT_SIMP}, {DEF_SIMP}, {', '.join(defs)}]\n  constructor <;> ring"
+    def simp_ring(defs, pre=""):
+        return f"{pre}  simp only [{CP_SIMP}, {NAT_SIMP}, {DEF_SIMP}, {', '.join(defs)}]\n  constructor\n  · {RING}\n  · {RING}"
 
     def csum(terms, zero="0"):
         return " +\n        ".join(terms) if terms else zero
 
     G = lambda x, y: f"⟨Gcre {x} {y}, Gcim {x} {y}⟩"
-    ONE = "(fun _ _ => 1)"
+    PHI = "(fun m p => lam m (qu p) (qv p))"
     test_elems, trial_elems = (0, 2), (0, 1, 2)
     adj = lambda a, b: bool(set(ELEMS[:, a]) & set(ELEMS[:, b]))
+    KK = "(kp 0) (kp 1)"
 
-    # ---- (a) C06: electric field, regular: every local block = -ik Σ_c R_c' V1 R_c - (1/ik) D' V0 D
+    def Wreg(tau, sig):
+        return f"(fun p q => qw q * ie {sig} * ie {tau} * qw p)"
+
+    def Greg(tau, sig):
+        return f"(fun p q => ⟨Gcre ({tau * NQ} + p) ({sig * NQ} + q), Gcim ({tau * NQ} + p) ({sig * NQ} + q)⟩)"
+
+    # ---- closed forms of the single-layer traces with the Maxwell stub (V0, V1 of the decomposition)
+    for tau in test_elems:
+        for sig in trial_elems:
+            if adj(tau, sig):
+                continue
+            em.add("MaxwellScalar", f"mx_scalar_regular_closed_form_v0_{tau}_{sig}",
+                   f"{em.cp('gv0', tau, sig, **UNIT)}\n      = regV0 {Wreg(tau, sig)} {Greg(tau, sig)}",
+                   simp_ring(em.unfold("gv0", tau, sig)))
+            for m in range(3):
+                for n in range(3):
+                    a, b = 3 * tau + m, 3 * sig + n
+                    em.add("MaxwellScalar", f"mx_scalar_regular_closed_form_v1_{a}_{b}",
+                           f"{em.cp('gv1', a, b, **UNIT)}\n      = regV1 {Wreg(tau, sig)} {Greg(tau, sig)} {PHI} {PHI} {m} {n}",
+                           simp_ring(em.unfold("gv1", a, b)))
+
+    def sing_data(pr):
+        tau, sig, toff, soff, woff, npts = pr
+        W = f"(fun q => sw ({woff} + q) * (ie {tau} * ie {sig}))"
+        A, B = 100 + 8 * tau + toff, 200 + 8 * sig + soff
+        Gs = f"(fun q => ⟨Gcre ({A} + q) ({B} + q), Gcim ({A} + q) ({B} + q)⟩)"
+        ft = f"(fun m q => lam m (stu ({toff} + q)) (stv ({toff} + q)))"
+        fs = f"(fun m q => lam m (ssu ({soff} + q)) (ssv ({soff} + q)))"
+        return W, Gs, ft, fs
+
+    for k, pr in enumerate(ag.SING_PAIRS):
+        W, Gs, ft, fs = sing_data(pr)
+        em.add("MaxwellScalar", f"mx_scalar_singular_closed_form_v0_{k}",
+               f"{em.cp('gv0s', k, 0)}\n      = singV0 {W} {Gs}", simp_ring(em.unfold("gv0s", k, 0)))
+        for m in range(3):
+            for n in range(3):
+                slot = 9 * k + 3 * m + n
+                em.add("MaxwellScalar", f"mx_scalar_singular_closed_form_v1_{k}_{m}_{n}",
+                       f"{em.cp('gv1s', slot, 0)}\n      = singV1 {W} {Gs} {ft} {fs} {m} {n}", simp_ring(em.unfold("gv1s", slot, 0)))
+
+    # ---- (a) C06: electric field, regular: closed form of every local block, then the decomposition
     for tau in test_elems:
         for sig in trial_elems:
             for i in range(3):
                 for j in range(3):
                     a, b = 3 * tau + i, 3 * sig + j
-                    used = em.unfold("mxeloc", a, b) + em.unfold("gv0", tau, sig)
-                    for m in range(3):
-                        for n in range(3):
-                            used += em.unfold("gv1", 3 * tau + m, 3 * sig + n)
-                    stmt = (f"{em.cp('mxeloc', a, b)}\n      = efieldLocal (kp 0) (kp 1) (rwgVtx mt elems el J ie {tau} {i}) "
-                            f"(rwgVtx ms elems el J ie {sig} {j})\n          (rwgDiv mt elems el ie {tau} {i}) (rwgDiv ms elems el ie {sig} {j})\n"
-                            f"          (fun m n => {GV1} ({3 * tau} + m) ({3 * sig} + n)) ({GV0} {tau} {sig})")
-                    em.add("MaxwellEfieldRegular", f"mx_efield_regular_decomposition_{a}_{b}", stmt,
-                           simp_ring(["gv1M", "gv0M"] + sorted(set(used))))
+                    tab = " ".join(em.cp("gv1", 3 * tau + m, 3 * sig + n, **UNIT) for m in range(3) for n in range(3))
+                    dec = (f"{em.cp('mxeloc', a, b)}\n      = efieldLocal {KK} (rwgVtx mt elems el J ie {tau} {i}) "
+                           f"(rwgVtx ms elems el J ie {sig} {j})\n          (rwgDiv mt elems el ie {tau} {i}) (rwgDiv ms elems el ie {sig} {j})\n"
+                           f"          (tab9 {tab})\n          {em.cp('gv0', tau, sig, **UNIT)}")
+                    if adj(tau, sig):   # skipped pair: every trace involved is zero
+                        used = em.unfold("mxeloc", a, b) + em.unfold("gv0", tau, sig)
+                        for m in range(3):
+                            for n in range(3):
+                                used += em.unfold("gv1", 3 * tau + m, 3 * sig + n)
+                        em.add("MaxwellEfieldRegular", f"mx_efield_regular_decomposition_{a}_{b}", dec, simp_ring(sorted(set(used))))
+                        continue
+                    psit = f"(fun p c => rwgVal mt elems el J ie {tau} {i} c (qu p) (qv p))"
+                    psis = f"(fun q c => rwgVal ms elems el J ie {sig} {j} c (qu q) (qv q))"
+                    em.add("MaxwellEfieldClosed", f"mx_efield_regular_closed_form_{a}_{b}",
+                           f"{em.cp('mxeloc', a, b)}\n      = efieldClosed {KK} {Wreg(tau, sig)} {Greg(tau, sig)} {psit} {psis}\n"
+                           f"          (rwgDiv mt elems el ie {tau} {i}) (rwgDiv ms elems el ie {sig} {j})",
+                           simp_ring(em.unfold("mxeloc", a, b)))
+                    rws = [f"mx_efield_regular_closed_form_{a}_{b}"]
+                    rws += [f"mx_scalar_regular_closed_form_v1_{3 * tau + m}_{3 * sig + n}" for m in range(3) for n in range(3)]
+                    rws += [f"mx_scalar_regular_closed_form_v0_{tau}_{sig}"]
+                    em.add("MaxwellEfieldRegular", f"mx_efield_regular_decomposition_{a}_{b}", dec,
+                           f"  rw [{', '.join(rws)}]\n"
+                           "  exact efield_decomposition _ _ _ _ _ _ _ _ _ _ _ _ (fun p c => rwgVal_interp _ _ _ _ _ _ _ _ _ _)\n"
+                           "    (fun q c => rwgVal_interp _ _ _ _ _ _ _ _ _ _)")
     # ---- (a') the assembled matrix (edge numbering, shared dofs) is the scatter of the local blocks
     Tg, Sg = sp["Tg"], sp["Sg"]
     for r in range(Tg.ndofs):
@@ -701,19 +699,15 @@ def generate(env=None):
                    f"{em.cp('mxe', r, c)}\n      = {csum(terms)}", simp_ring(sorted(set(used))))
     # ---- (a'') electric field, singular local integrals
     for k, pr in enumerate(ag.SING_PAIRS):
-        tau, sig = pr[0], pr[1]
+        tau, sig, toff, soff, woff, npts = pr
+        W, Gs, ft, fs = sing_data(pr)
         for i in range(3):
             for j in range(3):
                 slot = 9 * k + 3 * i + j
-                used = em.unfold("mxes", slot, 0) + em.unfold("gv0s", k, 0)
-                for m in range(3):
-                    for n in range(3):
-                        used += em.unfold("gv1s", 9 * k + 3 * m + n, 0)
                 facts = _complex_den_facts([entries[("mxesre", slot, 0)], entries[("mxesim", slot, 0)]],
                                            lambda f: f"(hie {f[1].split('_')[1]})")
-                stmt = (f"{em.cp('mxes', slot, 0)}\n      = efieldLocal (kp 0) (kp 1) (rwgVtx {ONE} elems el J ie {tau} {i}) "
-                        f"(rwgVtx {ONE} elems el J ie {sig} {j})\n          (rwgDiv {ONE} elems el ie {tau} {i}) (rwgDiv {ONE} elems el ie {sig} {j})\n"
-                        f"          (fun m n => {GV1S} ({9 * k} + 3 * m + n) 0) ({GV0S} {k} 0)")
+                psit = f"(fun q c => rwgVal {ONE} elems el J ie {tau} {i} c (stu ({toff} + q)) (stv ({toff} + q)))"
+                psis = f"(fun q c => rwgVal {ONE} elems el J ie {sig} {j} c (ssu ({soff} + q)) (ssv ({soff} + q)))"
                 pre = ("  have hk' : (0 - kp 1) * (0 - kp 1) + kp 0 * kp 0 ≠ 0 := by\n"
                        "    have e : (0 - kp 1) * (0 - kp 1) + kp 0 * kp 0 = kp 0 * kp 0 + kp 1 * kp 1 := by ring\n"
                        "    rw [e]; exact hk\n"
@@ -722,11 +716,25 @@ def generate(env=None):
                        "    rw [e]; exact hk\n"
                        + "\n".join(facts) + ("\n" if facts else "")
                        + f"  have hi1 := hie {tau}\n  have hi2 := hie {sig}\n")
-                em.add("MaxwellEfieldSingular", f"mx_efield_singular_decomposition_{k}_{i}_{j}", stmt,
-                       simp_ring(["gv1sM", "gv0sM"] + sorted(set(used)), pre=pre, field=True),
-                       hyps=" (hie : ∀ e, ie e ≠ 0) (hk : kp 0 * kp 0 + kp 1 * kp 1 ≠ 0)")
+                hy = " (hie : ∀ e, ie e ≠ 0) (hk : kp 0 * kp 0 + kp 1 * kp 1 ≠ 0)"
+                em.add("MaxwellEfieldSingular", f"mx_efield_singular_closed_form_{k}_{i}_{j}",
+                       f"{em.cp('mxes', slot, 0)}\n      = efieldClosedSing {KK} {W} {Gs} {psit} {psis}\n"
+                       f"          (rwgDiv {ONE} elems el ie {tau} {i}) (rwgDiv {ONE} elems el ie {sig} {j})",
+                       f"{pre}  simp only [{CP_SIMP}, {NAT_SIMP}, {DEF_SIMP}, {', '.join(em.unfold('mxes', slot, 0))}]\n"
+                       f"  constructor\n  · field_simp\n    {RING}\n  · field_simp\n    {RING}", hyps=hy)
+                tab = " ".join(em.cp("gv1s", 9 * k + 3 * m + n, 0) for m in range(3) for n in range(3))
+                rws = [f"mx_efield_singular_closed_form_{k}_{i}_{j} (hie := hie) (hk := hk)"]
+                rws += [f"mx_scalar_singular_closed_form_v1_{k}_{m}_{n}" for m in range(3) for n in range(3)]
+                rws += [f"mx_scalar_singular_closed_form_v0_{k}"]
+                em.add("MaxwellEfieldSingular", f"mx_efield_singular_decomposition_{k}_{i}_{j}",
+                       f"{em.cp('mxes', slot, 0)}\n      = efieldLocal {KK} (rwgVtx {ONE} elems el J ie {tau} {i}) "
+                       f"(rwgVtx {ONE} elems el J ie {sig} {j})\n          (rwgDiv {ONE} elems el ie {tau} {i}) (rwgDiv {ONE} elems el ie {sig} {j})\n"
+                       f"          (tab9 {tab})\n          {em.cp('gv0s', k, 0)}",
+                       f"  rw [{', '.join(rws)}]\n"
+                       "  exact efield_decomposition_sing _ _ _ _ _ _ _ _ _ _ _ _ (fun q c => rwgVal_interp _ _ _ _ _ _ _ _ _ _)\n"
+                       "    (fun q c => rwgVal_interp _ _ _ _ _ _ _ _ _ _)", hyps=hy)
     # ---- (b) C06: complex symmetry of the regular local blocks (same edge space on both sides: ms := mt)
-    prs = [(t_ * NQ + p_, s_ * NQ + q_) for (t_, s_) in ((2, 0),) for p_ in range(NQ) for q_ in range(NQ)]
+    prs = [(2 * NQ + p_, 0 * NQ + q_) for p_ in range(NQ) for q_ in range(NQ)]
     for fam, tag, hyps, rw in (
             ("mxeloc", "efield", " (hre : ∀ x y, Gcre x y = Gcre y x) (him : ∀ x y, Gcim x y = Gcim y x)", ("hre", "him")),
             ("mxmloc", "mfield", " (hre : ∀ x y, Gcre x y = Gcre y x) (him : ∀ x y, Gcim x y = Gcim y x) (hd : ∀ x y, dst x y = dst y x)",
@@ -738,7 +746,7 @@ def generate(env=None):
                 rws = [f"{h} {x} {y}" for h in rw for (x, y) in prs]
                 em.add("MaxwellSymmetric", f"mx_{tag}_regular_symmetric_{i}_{j}",
                        f"{em.cp(fam, a, b, ms='mt')}\n      = {em.cp(fam, b, a, ms='mt')}",
-                       f"  simp only [CP.mk.injEq, {', '.join(sorted(set(used)) + rws)}]\n  constructor <;> ring", hyps=hyps)
+                       f"  simp only [CP.mk.injEq, {', '.join(sorted(set(used)) + rws)}]\n  constructor\n  · {RING}\n  · {RING}", hyps=hyps)
     # ---- magnetic field, regular local blocks: closed form
     for tau in test_elems:
         for sig in trial_elems:
@@ -751,12 +759,12 @@ def generate(env=None):
                             for q_ in range(NQ):
                                 x, y = tau * NQ + p_, sig * NQ + q_
                                 terms.append(
-                                    f"mfieldTerm (kp 0) (kp 1) (qw {p_} * qw {q_} * ie {tau} * ie {sig}) "
+                                    f"mfieldTerm {KK} (qw {p_} * qw {q_} * ie {tau} * ie {sig}) "
                                     f"(fun c => pt V J elems {tau} c (qu {p_}) (qv {p_})) (fun c => pt V J elems {sig} c (qu {q_}) (qv {q_}))\n"
                                     f"          (fun c => rwgVal mt elems el J ie {tau} {i} c (qu {p_}) (qv {p_})) "
                                     f"(fun c => rwgVal ms elems el J ie {sig} {j} c (qu {q_}) (qv {q_})) {G(x, y)} (dst {x} {y})")
                     em.add("MaxwellMfieldRegular", f"mx_mfield_regular_closed_form_{a}_{b}",
-                           f"{em.cp('mxmloc', a, b)}\n      = {csum(terms)}", simp_ring(["mfieldTerm"] + em.unfold("mxmloc", a, b)))
+                           f"{em.cp('mxmloc', a, b)}\n      = {csum(terms)}", simp_ring(em.unfold("mxmloc", a, b)))
     # ---- singular local integrals, magnetic field: closed form
     for k, pr in enumerate(ag.SING_PAIRS):
         tau, sig, toff, soff, woff, npts = pr
@@ -768,12 +776,12 @@ def generate(env=None):
                     x, y = 100 + 8 * tau + toff + q_, 200 + 8 * sig + soff + q_
                     tu, tv, su, sv = f"(stu {toff + q_})", f"(stv {toff + q_})", f"(ssu {soff + q_})", f"(ssv {soff + q_})"
                     terms.append(
-                        f"mfieldTerm (kp 0) (kp 1) (sw {woff + q_} * (ie {tau} * ie {sig})) "
+                        f"mfieldTerm {KK} (sw {woff + q_} * (ie {tau} * ie {sig})) "
                         f"(fun c => pt V J elems {tau} c {tu} {tv}) (fun c => pt V J elems {sig} c {su} {sv})\n"
                         f"          (fun c => rwgVal {ONE} elems el J ie {tau} {i} c {tu} {tv}) "
                         f"(fun c => rwgVal {ONE} elems el J ie {sig} {j} c {su} {sv}) {G(x, y)} (dst {x} {y})")
                 em.add("MaxwellMfieldSingular", f"mx_mfield_singular_closed_form_{k}_{i}_{j}",
-                       f"{em.cp('mxms', slot, 0)}\n      = {csum(terms)}", simp_ring(["mfieldTerm"] + em.unfold("mxms", slot, 0)))
+                       f"{em.cp('mxms', slot, 0)}\n      = {csum(terms)}", simp_ring(em.unfold("mxms", slot, 0)))
     # ---- (c) C07: boundary assembler on two disjoint grids vs Galerkin-tested traced potential
     Tt, Ss = sp["Tt"], sp["Ss"]
     DENS = "(fun e i => coef (3 * e + i))"
@@ -801,13 +809,13 @@ def generate(env=None):
                             for q_ in range(NQ):
                                 x, y = 10 + tau * NQ + p_, 20 + sig * NQ + q_
                                 rem.append(
-                                    f"efieldRemainder (kp 0) (kp 1) {G(x, y)} (dst {x} {y}) (qw {p_} * iet {tau}) (qw {q_}) (ies {sig})\n"
+                                    f"efieldRemainder {KK} {G(x, y)} (dst {x} {y}) (qw {p_} * iet {tau}) (qw {q_}) (ies {sig})\n"
                                     f"          (fun c => pt Vt Jt elemsT {tau} c (qu {p_}) (qv {p_})) (fun c => pt Vs Js elemsS {sig} c (qu {q_}) (qv {q_}))\n"
                                     f"          (fun c => rwgVal mt elemsT elt Jt iet {tau} {i} c (qu {p_}) (qv {p_})) "
                                     f"(rwgDiv mt elemsT elt iet {tau} {i}) (rwgDiv ms elemsS els ies {sig} {j}) (rwgDivIe ms elemsS els {sig} {j})")
                 em.add("MaxwellTwoEfield", f"mx_two_efield_is_minus_tested_potential_minus_remainder_{r}_{c}",
                        f"{em.cp(fam, r, c)}\n      = -({csum(tested, '(0 : CP K)')})\n        - ({csum(rem, '(0 : CP K)')})",
-                       simp_ring(["efieldRemainder"] + sorted(set(used))))
+                       simp_ring(sorted(set(used))))
     # ---- (d) C08: potentials and far fields = closed-form kernel sums over the library's own quadrature points
     for d in range(3):
         for x in range(4):
@@ -821,33 +829,42 @@ def generate(env=None):
                     F = ("(fun c => qw {q} * ies {s} * (" + " + ".join(
                         f"rwgVal {DENS} elemsS els Js ies {{s}} {j} c (qu {{q}}) (qv {{q}})" for j in range(3)) + "))").format(q=q_, s=sig)
                     Dv = f"(qw {q_} * (" + " + ".join(f"rwgDivIe {DENS} elemsS els {sig} {j}" for j in range(3)) + "))"
-                    te.append(f"efieldPotTerm (kp 0) (kp 1) {G(10 + x, y)} (dst {10 + x} {y}) {X} {Y} {F} {Dv} {d}")
-                    tm.append(f"mfieldPotTerm (kp 0) (kp 1) {G(10 + x, y)} (dst {10 + x} {y}) {X} {Y} {F} {d}")
-                    fe.append(f"efieldFarTerm (kp 0) (kp 1) {G(10 + x, y)} {X} {F} {Dv} {d}")
-                    fm.append(f"mfieldFarTerm (kp 0) (kp 1) {G(10 + x, y)} {X} {F} {d}")
-            for fam, name, terms, df in (("mxepot", "mx_potential_efield_closed_form", te, "efieldPotTerm"),
-                                         ("mxmpot", "mx_potential_mfield_closed_form", tm, "mfieldPotTerm"),
-                                         ("mxefar", "mx_potential_efield_far_field_closed_form", fe, "efieldFarTerm"),
-                                         ("mxmfar", "mx_potential_mfield_far_field_closed_form", fm, "mfieldFarTerm")):
+                    te.append(f"efieldPotTerm {KK} {G(10 + x, y)} (dst {10 + x} {y}) {X} {Y} {F} {Dv} {d}")
+                    tm.append(f"mfieldPotTerm {KK} {G(10 + x, y)} (dst {10 + x} {y}) {X} {Y} {F} {d}")
+                    fe.append(f"efieldFarTerm {KK} {G(10 + x, y)} {X} {F} {Dv} {d}")
+                    fm.append(f"mfieldFarTerm {KK} {G(10 + x, y)} {X} {F} {d}")
+            for fam, name, terms in (("mxepot", "mx_potential_efield_closed_form", te),
+                                     ("mxmpot", "mx_potential_mfield_closed_form", tm),
+                                     ("mxefar", "mx_potential_efield_far_field_closed_form", fe),
+                                     ("mxmfar", "mx_potential_mfield_far_field_closed_form", fm)):
                 em.add("MaxwellPotential", f"{name}_{d}_{x}", f"{em.cp(fam, d, x)}\n      = {csum(terms)}",
-                       simp_ring([df] + em.unfold(fam, d, x)))
-    imports = write_groups(em, changed)
+                       simp_ring(em.unfold(fam, d, x)))
+    imports = write_groups(em, trace_mods, changed)
     info = dict(entries=len(entries), theorems=len(em.thms), changed=changed, atoms=sorted(em.ar),
                 groups={g: len(v) for g, v in sorted(em.groups.items())}, edge_atoms=sorted(EDGE_ATOMS),
                 cse_defs={k: len(P.named) for k, P in em.pools.items()})
     return info, em.thms, imports
 
 
-def write_groups(em, changed, max_per_file=30):
-    imports = []
+# groups whose proofs cite theorems of other groups
+GROUP_DEPS = {"MaxwellEfieldRegular": ("MaxwellEfieldClosed", "MaxwellScalar"), "MaxwellEfieldSingular": ("MaxwellScalar",)}
+
+
+def write_groups(em, trace_mods, changed, max_per_file=30):
+    imports, files = [], {}
     section = f"section\nvariable {{K : Type}} [Field K] {em.B}\n"
     for grp, items in sorted(em.groups.items()):
         chunks = [items[i:i + max_per_file] for i in range(0, len(items), max_per_file)]
-        for n, chunk in enumerate(chunks):
-            mod = f"AsmMatch{grp}" + (str(n + 1) if len(chunks) > 1 else "")
-            body = ["-- GENERATED by props/asm_gen_mx.py -- do not edit.", "import BemppVerif.Gen.AsmMatchMaxwellDefs",
-                    "namespace BemppVerif.AsmMatch", "open BemppVerif BemppVerif.Gen.AsmTracesMx",
-                    "set_option linter.unusedVariables false", "set_option linter.unusedSimpArgs false", "", section]
+        files[grp] = [f"AsmMatch{grp}" + (str(n + 1) if len(chunks) > 1 else "") for n in range(len(chunks))]
+    for grp, items in sorted(em.groups.items()):
+        chunks = [items[i:i + max_per_file] for i in range(0, len(items), max_per_file)]
+        for mod, chunk in zip(files[grp], chunks):
+            body = ["-- GENERATED by props/asm_gen_mx.py -- do not edit."]
+            body += [f"import BemppVerif.Gen.{m}" for m in trace_mods]
+            body += [f"import BemppVerif.Gen.{m}" for g in GROUP_DEPS.get(grp, ()) for m in files.get(g, ())]
+            body += ["import Mathlib.Tactic.FieldSimp",
+                     "namespace BemppVerif.AsmMatch", "open BemppVerif BemppVerif.Mx BemppVerif.Gen.AsmTracesMx",
+                     "set_option linter.unusedVariables false", "set_option linter.unusedSimpArgs false", "", section]
             body += chunk + ["end", "end BemppVerif.AsmMatch", ""]
             changed.append(T.write_if_changed(os.path.join(LEAN, f"BemppVerif/Gen/{mod}.lean"), "\n".join(body)))
             imports.append(f"import BemppVerif.Gen.{mod}")
